@@ -47,6 +47,9 @@ func BuildRepoBin(pkg, name string) (string, error) {
 	out := filepath.Join(dir, name)
 	cmd := exec.Command("go", "build", "-o", out, pkg)
 	cmd.Dir = "/repo"
+	if r := os.Getenv("VERIF_REPO"); r != "" {
+		cmd.Dir = r
+	}
 	cmd.Env = append(os.Environ(), "GOFLAGS=-mod=readonly", "GOPROXY=off", "GOTOOLCHAIN=local")
 	if o, err := cmd.CombinedOutput(); err != nil {
 		return "", fmt.Errorf("go build %s: %v\n%s", pkg, err, o)
